@@ -53,7 +53,7 @@ type shardExtra interface {
 
 type attr struct {
 	Nonce, Round, Epoch, Prev int
-	Bad                        bool
+	Bad                       bool
 }
 
 // sut is one real detector plus the driver's bookkeeping
